@@ -29,6 +29,22 @@ type anchorRec struct {
 	Callees []string `json:"callees"`
 }
 
+type fieldRec struct {
+	Name string `json:"name"`
+	Typ  string `json:"typ"`
+}
+
+type structRec struct {
+	Rel    string     `json:"rel"`
+	Type   string     `json:"type"`
+	Fields []fieldRec `json:"fields"`
+}
+
+type anchorsIndex struct {
+	Funcs   []anchorRec `json:"funcs"`
+	Structs []structRec `json:"structs"`
+}
+
 var theProg *Prog // for name-based call predicates (isCall) that have no program at hand
 
 type renameState struct {
@@ -38,6 +54,9 @@ type renameState struct {
 	byQName  map[string]string    // reference qualified name -> current qualified name
 	notes    []string
 	refNames map[*types.Func]string
+	structs  map[string]structRec  // rel|TypeName of the reference tree
+	fieldRef map[*types.Var]string // current field object -> reference name (only for renamed fields)
+	applied  bool
 }
 
 func (p *Prog) renames() *renameState {
@@ -45,10 +64,17 @@ func (p *Prog) renames() *renameState {
 		return p.ren
 	}
 	rs := &renameState{index: map[string]anchorRec{}, names: map[string]bool{}, alias: map[string]*FuncInfo{}, byQName: map[string]string{}}
-	var recs []anchorRec
+	var idx anchorsIndex
 	if len(anchorsIndexRaw) > 0 {
-		_ = json.Unmarshal(anchorsIndexRaw, &recs)
+		if err := json.Unmarshal(anchorsIndexRaw, &idx); err != nil {
+			_ = json.Unmarshal(anchorsIndexRaw, &idx.Funcs)
+		}
 	}
+	rs.structs = map[string]structRec{}
+	for _, st := range idx.Structs {
+		rs.structs[st.Rel+"|"+st.Type] = st
+	}
+	recs := idx.Funcs
 	for _, r := range recs {
 		k := r.Rel + "|" + r.Recv + "|" + r.Name
 		rs.index[k] = r
@@ -214,7 +240,27 @@ func writeAnchorsIndex(p *Prog, path string) (int, error) {
 		}
 		return a.Name < b.Name
 	})
-	data, err := json.MarshalIndent(recs, "", " ")
+	var structs []structRec
+	for _, pk := range p.Pkgs {
+		rel := strings.TrimPrefix(strings.TrimPrefix(pk.PkgPath, modPath), "/")
+		sc := pk.Types.Scope()
+		for _, nm := range sc.Names() {
+			tn, ok := sc.Lookup(nm).(*types.TypeName)
+			if !ok || tn.IsAlias() {
+				continue
+			}
+			st, ok := tn.Type().Underlying().(*types.Struct)
+			if !ok {
+				continue
+			}
+			sr := structRec{Rel: rel, Type: nm}
+			for i := 0; i < st.NumFields(); i++ {
+				sr.Fields = append(sr.Fields, fieldRec{st.Field(i).Name(), types.TypeString(st.Field(i).Type(), nil)})
+			}
+			structs = append(structs, sr)
+		}
+	}
+	data, err := json.MarshalIndent(anchorsIndex{Funcs: recs, Structs: structs}, "", " ")
 	if err != nil {
 		return 0, err
 	}
@@ -276,4 +322,137 @@ func refName(fn *types.Func) string {
 		}
 	}
 	return fn.Name()
+}
+
+// applyRenames normalises the loaded syntax trees to the names of the reference tree: every identifier that refers
+// to a renamed unexported function or to a renamed struct field gets the reference name. The rules (which speak
+// about `x.deliveries`, `emitDSN`, …) and everything printed from expressions (keys, terms of the bounds prover)
+// then read the same as on the reference tree. Type information is not touched; objects keep their current names
+// (objName gives the reference name of an object).
+func (p *Prog) applyRenames() {
+	rs := p.renames()
+	if rs.applied || len(rs.index) == 0 {
+		return
+	}
+	rs.applied = true
+	rs.fieldRef = map[*types.Var]string{}
+	// fields: per struct type present in both trees
+	for _, pk := range p.Pkgs {
+		rel := strings.TrimPrefix(strings.TrimPrefix(pk.PkgPath, modPath), "/")
+		sc := pk.Types.Scope()
+		for _, nm := range sc.Names() {
+			tn, ok := sc.Lookup(nm).(*types.TypeName)
+			if !ok {
+				continue
+			}
+			st, ok := tn.Type().Underlying().(*types.Struct)
+			if !ok {
+				continue
+			}
+			ref, ok := rs.structs[rel+"|"+nm]
+			if !ok {
+				continue
+			}
+			cur := map[string]bool{}
+			for i := 0; i < st.NumFields(); i++ {
+				cur[st.Field(i).Name()] = true
+			}
+			refNames := map[string]bool{}
+			for _, f := range ref.Fields {
+				refNames[f.Name] = true
+			}
+			used := map[string]bool{}
+			for i := 0; i < st.NumFields(); i++ {
+				f := st.Field(i)
+				if refNames[f.Name()] {
+					continue // unchanged name
+				}
+				ts := types.TypeString(f.Type(), nil)
+				// reference fields that disappeared and have the same type
+				var cands []int
+				for j, rf := range ref.Fields {
+					if !cur[rf.Name] && !used[rf.Name] && rf.Typ == ts {
+						cands = append(cands, j)
+					}
+				}
+				pick := -1
+				if len(cands) == 1 {
+					pick = cands[0]
+				} else {
+					for _, j := range cands {
+						if j == i {
+							pick = j
+						}
+					}
+				}
+				if pick >= 0 {
+					rs.fieldRef[f] = ref.Fields[pick].Name
+					used[ref.Fields[pick].Name] = true
+					rs.notes = append(rs.notes, "field "+rel+":"+nm+"."+ref.Fields[pick].Name+" not found under that name; resolved to "+f.Name()+" (same struct, same type)")
+				}
+			}
+		}
+	}
+	// which identifiers change? (decided before anything is touched)
+	type edit struct {
+		id   *ast.Ident
+		name string
+	}
+	var edits []edit
+	for _, pk := range p.Pkgs {
+		info := pk.TypesInfo
+		for _, file := range pk.Syntax {
+			if strings.HasSuffix(p.Fset.Position(file.Pos()).Filename, "_test.go") {
+				continue
+			}
+			ast.Inspect(file, func(n ast.Node) bool {
+				id, ok := n.(*ast.Ident)
+				if !ok {
+					return true
+				}
+				obj := info.Uses[id]
+				if obj == nil {
+					obj = info.Defs[id]
+				}
+				switch o := obj.(type) {
+				case *types.Var:
+					if o.IsField() {
+						if rn, ok := rs.fieldRef[o]; ok {
+							edits = append(edits, edit{id, rn})
+						}
+					}
+				case *types.Func:
+					if o.Pkg() != nil && strings.HasPrefix(o.Pkg().Path(), modPath) && !o.Exported() {
+						if rn := refName(o); rn != o.Name() {
+							edits = append(edits, edit{id, rn})
+						}
+					}
+				}
+				return true
+			})
+		}
+	}
+	if len(edits) == 0 {
+		return
+	}
+	// go/ssa resolves the keys of struct literals by name: build the SSA form from the unmodified trees first
+	p.SSA()
+	for _, e := range edits {
+		e.id.Name = e.name
+	}
+}
+
+// objName: the reference name of an object (renamed functions and fields), its own name otherwise.
+func objName(o interface{ Name() string }) string {
+	switch x := o.(type) {
+	case *types.Func:
+		return refName(x)
+	case *types.Var:
+		if x != nil && x.IsField() && theProg != nil && theProg.ren != nil {
+			if rn, ok := theProg.ren.fieldRef[x]; ok {
+				return rn
+			}
+		}
+	}
+	return o.Name()
 }
